@@ -278,6 +278,14 @@ func (x *X) external(fr *Frame, st *State, fn *ssa.Function, args []SV, cc *ssa.
 		return []SV{x.errorsIs(argT(0), argT(1))}
 	case "strconv.FormatBool":
 		return []SV{mkIte(argT(0), x.enc.strLit("true"), x.enc.strLit("false"))}
+	case "context.WithValue":
+		// the derived context answers Value(key) with val and every other key as its parent does
+		x.enc.assumption("context: WithValue(parent, key, val).Value(key) == val; other keys are answered by the parent")
+		r := x.vc.define("ctxwith", x.ufS("ctx_with", SAny, argT(0), argT(1), argT(2)))
+		x.assumeWF(st, r, types.NewInterfaceType(nil, nil))
+		x.vc.assume(mkNot(T(SBool, "((_ is ANil) "+r.S+")")))
+		x.vc.assume(mkEq(x.ufS("ctx_value", SAny, r, argT(1)), argT(2)))
+		return []SV{r}
 	case "fmt.Sprintf", "fmt.Sprint", "fmt.Sprintln":
 		r := x.vc.fresh("sprintf", SStr)
 		x.vc.assume(x.ile(x.ic(0), app(isz, "strlen", r)))
